@@ -75,7 +75,9 @@ TEXT = {
            "positional hand-off, faithful records (attributes assigned "
            "before they are read along the constructor chain, parameters "
            "stored under their own names, property guards), per-direction "
-           "containers of model nodes. Decides the "
+           "containers of model nodes, kill edges, event graph -> node graph, "
+           "ingestion of the dummy start, partial merges, the dummy-break "
+           "push-down (shared with C05). Decides the "
            "plumbing, not the heuristics' language inclusion.",
     "C04": "Decides the four structural premises that make chunked learning "
            "equal one-shot learning at model level: stale-flag typestate on "
@@ -105,7 +107,8 @@ TEXT = {
            "never writes to the diagram it reads, a failing placeholder sink "
            "aborts the conversion (no swallowing handler), the dummy-break "
            "push-down beneath nested XOR starts, branch separators and the "
-           "operator writer. Block closure "
+           "operator writer, lonely merge and kill flags of model nodes "
+           "(shared with C01), partial merges. Block closure "
            "as a function of graph shape is not decided.",
     "C07": "Decides the recursion scheme of loop extraction (every cyclic "
            "SCC replaced, body decomposed recursively on a private copy, "
